@@ -205,10 +205,15 @@ def initWarn (arg : InitArg) (ishape shape : Shape) : InitWarn :=
     else .none
   else .none
 
-/-- `isinstance(orig_shape, range) and orig_init is not None and orig_init not in orig_shape`
-for integer initial values -/
+/-- `isinstance(orig_shape, range) and orig_init is not None and init.value not in orig_shape`: the value of the
+constant the initializer was cast to is tested (after the F35 repair; the code as found tested the object itself,
+which raised TypeError for a `Const` and refused in-range plain `Enum` members) -/
 def initOutOfRange : ShapeArg → InitArg → Bool
   | .range a b k, .int v => !rangeContains a b k v
+  | .range a b k, .expr e =>
+    match constCast e with
+    | some (v, _) => !rangeContains a b k v
+    | none => false
   | _, _ => false
 
 /-- `_get_init_value(init, shape)` for shapes that are not `ShapeCastable` objects -/
